@@ -8,11 +8,16 @@ structure St where
   nodes : List NodeCfg := []      -- most recent first
   links : List LinkCfg := []      -- most recent first
   agents : List AgentCfg := []    -- most recent first
+  game : GameCfg := {}
+  airspace : Assoc String String := []
+  defaults : DefaultsCfg := {}
+  nodeSets : List OfficeCfg := []
   fwCur : String := ""
   sched : Schedule String := { schedule := [], files := [], base := "" }
 
 def St.scenario (s : St) : Scenario :=
-  { nodes := s.nodes.reverse, links := s.links.reverse, agents := s.agents.reverse }
+  { nodes := s.nodes.reverse, links := s.links.reverse, agents := s.agents.reverse, game := s.game, airspace := s.airspace,
+    defaults := s.defaults, nodeSets := s.nodeSets }
 
 def parseAction : String → Option Action
   | "PERMIT" => some .permit | "DENY" => some .deny | _ => none
@@ -23,9 +28,10 @@ def showProto : Proto → String
 def showAction : Action → String | .permit => "PERMIT" | .deny => "DENY"
 def parseKind : String → Option Kind
   | "computer" => some .computer | "server" => some .server | "printer" => some .printer | "switch" => some .switch
-  | "router" => some .router | "firewall" => some .firewall | _ => none
+  | "router" => some .router | "firewall" => some .firewall | "wireless-router" => some .wirelessRouter | _ => none
 def showKind : Kind → String
   | .computer => "computer" | .server => "server" | .printer => "printer" | .switch => "switch" | .router => "router" | .firewall => "firewall"
+  | .wirelessRouter => "wireless-router"
 def parseState : String → Option (Option Power)
   | "-" => some none | "ON" => some (some .on) | "OFF" => some (some .off) | "BOOTING" => some (some .booting)
   | "SHUTTING_DOWN" => some (some .shuttingDown) | _ => none
@@ -51,7 +57,16 @@ def updAgent (s : St) (f : AgentCfg → AgentCfg) : St × String :=
   | a :: rest => ({ s with agents := f a :: rest }, "ok")
   | [] => (s, "bad-op")
 
-def parseOpts (ws : List String) : String := " ".intercalate ws
+/-- `k=v` words → option mapping (split at the first `=`) -/
+def parseOpts (ws : List String) : Assoc String String :=
+  ws.filterMap fun w => match w.splitOn "=" with
+    | k :: rest@(_ :: _) => some (k, "=".intercalate rest)
+    | _ => none
+
+def showOpts (m : Assoc String (Option String)) : String :=
+  " ".intercalate (m.map fun e => s!"{e.1}={e.2.getD "<unset>"}")
+
+def csv (s : String) : List String := if s = "-" then [] else s.splitOn ","
 
 def enumFrom {α} : Nat → List α → List (Nat × α)
   | _, [] => []
@@ -64,12 +79,12 @@ def showAclLines (h nm : String) (a : Acl) : List String :=
 def showInventory (inv : Inventory) : String :=
   let nodeLines := inv.nodes.flatMap fun n =>
     let h := n.hostname
-    [s!"node {h} {showKind n.kind} {showPower n.power} sud={n.startUp} sdd={n.shutDown} dns={showOpt showIp n.dns} gw={showOpt showIp n.gateway}"]
-    ++ (enumFrom 1 n.nics).map (fun (i, c) => s!"nic {h} {i} {showOpt id c.name} {showOpt showIp c.ip} {showOpt showIp c.mask} wired={showBool c.wired} en={showBool c.enabled}")
+    [s!"node {h} {showKind n.kind} {showPower n.power} sud={n.startUp} sdd={n.shutDown} scan={n.scan} fsd={showOpt toString n.folderScan}/{showOpt toString n.folderRestore} dns={showOpt showIp n.dns} gw={showOpt showIp n.gateway}"]
+    ++ (enumFrom 1 n.nics).map (fun (i, c) => s!"nic {h} {i} {showOpt id c.name} {showOpt showIp c.ip} {showOpt showIp c.mask} wired={showBool c.wired} en={showBool c.enabled} freq={showOpt id c.frequency}")
     ++ n.acls.flatMap (fun (nm, a) => showAclLines h nm a)
     ++ (enumFrom 0 n.routes).map (fun (i, r) => s!"route {h} {i} {showIp r.addr} {showIp r.mask} {showIp r.hop} {r.metric}")
     ++ (match n.defaultRoute with | some ip => [s!"defroute {h} {showIp ip}"] | none => [])
-    ++ n.software.map (fun sw => s!"sw {h} {sw.name} {if sw.isApp then "app" else "svc"} n={sw.live} st={if sw.running then "RUNNING" else if sw.isApp then "CLOSED" else "STOPPED"} h={showHealth sw.health} {sw.opts}")
+    ++ n.software.map (fun sw => s!"sw {h} {sw.name} {if sw.isApp then "app" else "svc"} n={sw.live} st={if sw.running then "RUNNING" else if sw.isApp then "CLOSED" else "STOPPED"} h={showHealth sw.health} dfl={showOpt toString sw.imposedFix}/{showOpt toString sw.imposedRestart} {showOpts sw.opts}")
     ++ n.users.map (fun u => s!"user {h} {u.name} {u.password} {showBool u.admin}")
     ++ n.folders.flatMap (fun fd => s!"folder {h} {fd.name}" ::
         fd.files.map (fun f => s!"file {h} {fd.name} {f.name} {showOpt toString f.size} {showOpt id f.ftype}"))
@@ -81,12 +96,16 @@ def showInventory (inv : Inventory) : String :=
         | none => s!"act {a.ref} {i} MISSING -")
     ++ (enumFrom 0 a.rewards).map (fun (i, r) => s!"rew {a.ref} {i} {r.type} {r.weight} {r.opts}")
     ++ [s!"aset {a.ref} {a.settings}"]
-  " | ".intercalate (nodeLines ++ linkLines ++ agentLines)
+  let g := inv.game
+  let gameLines := [s!"game len={g.maxLen} seed={showOpt id g.seed} ports={",".intercalate g.ports} protocols={",".intercalate g.protocols} thresholds={g.thresholds}"]
+    ++ inv.airspace.map fun e => s!"airspace {e.1} {e.2}"
+  " | ".intercalate (nodeLines ++ linkLines ++ agentLines ++ gameLines)
 
 def showErr : Err → String
   | .aclPosition => "error aclPosition" | .noSuchPort => "error noSuchPort" | .fwPortMissing => "error fwPortMissing"
   | .fwAclMissing => "error fwAclMissing" | .hostNoAddress => "error hostNoAddress" | .noSuchNode => "error noSuchNode"
-  | .sameNode => "error sameNode"
+  | .sameNode => "error sameNode" | .noSuchFrequency => "error noSuchFrequency" | .wirelessEndpoint => "error wirelessEndpoint"
+  | .wirelessIncomplete => "error wirelessIncomplete" | .nodeSet => "error nodeSet"
 
 def parseNat? (s : String) : Option (Option Nat) := parseOpt String.toNat? s
 
@@ -131,6 +150,30 @@ def step (s : St) : List String → St × String
     match parseIp ip, parseOpt parseIp mask with
     | some ip, some mask => updNode s fun n => { n with fwPorts := n.fwPorts ++ [(k, { ip := ip, mask := mask })] }
     | _, _ => (s, "bad-op")
+  | ["routerif", ip, mask] =>
+    match parseIp ip, parseIp mask with
+    | some ip, some mask => updNode s fun n => { n with routerIf := some (ip, mask) }
+    | _, _ => (s, "bad-op")
+  | ["wap", ip, mask, freq] =>
+    match parseIp ip, parseIp mask with
+    | some ip, some mask => updNode s fun n => { n with wap := some { ip := ip, mask := mask, frequency := freq } }
+    | _, _ => (s, "bad-op")
+  | ["game", len, seed, ports, protos, thr] =>
+    match parseNat? len with
+    | some len => ({ s with game := { maxLen := len, seed := if seed = "-" then none else some seed, ports := csv ports,
+                                      protocols := csv protos, thresholds := thr } }, "ok")
+    | none => (s, "bad-op")
+  | ["airspace", f, v] => ({ s with airspace := s.airspace ++ [(f, v)] }, "ok")
+  | ["defaults", a, b, c, d, e, f, g, h] =>
+    match parseNat? a, parseNat? b, parseNat? c, parseNat? d, parseNat? e, parseNat? f, parseNat? g, parseNat? h with
+    | some a, some b, some c, some d, some e, some f, some g, some h =>
+      ({ s with defaults := { nodeStartUp := a, nodeShutDown := b, nodeScan := c, folderScan := d, folderRestore := e,
+                              svcFix := f, svcRestart := g, svcInstall := h } }, "ok")
+    | _, _, _, _, _, _, _, _ => (s, "bad-op")
+  | "nodeset" :: args =>
+    match parseOffice args with
+    | some c => ({ s with nodeSets := s.nodeSets ++ [c] }, "ok")
+    | none => (s, "bad-op")
   | ["fwacl-present"] => updNode s fun n => { n with fwAclPresent := true }
   | ["fwacl", nm] =>
     let (s', o) := updNode s fun n => { n with fwAcl := n.fwAcl ++ [(nm, [])] }
@@ -192,6 +235,7 @@ def step (s : St) : List String → St × String
         | .ok inv => showInventory inv
         | .error e => showErr e)
   | ["declared"] => (s, showInventory (declared s.scenario))
+  | ["spec"] => (s, showInventory (spec s.scenario))
   -- office-lan node set: `office-build|office-declared <lan> <subnet_base> <ip start> <num_pcs> <include_router -|0|1> <bandwidth|->`
   | "office-build" :: args =>
     match parseOffice args with
